@@ -172,7 +172,12 @@ func WithMaxAttempts(ctx context.Context, opts Options, n int, fn func() error) 
 		}
 	}
 	if err == nil {
-		err = errors.Wrap(ctx.Err(), "did not run function")
+		if ctx.Err() != nil {
+			err = errors.Wrap(ctx.Err(), "did not run function")
+		} else {
+			// The closer fired before the first attempt.
+			err = errors.New("did not run function")
+		}
 	}
 	return err
 }
